@@ -76,11 +76,12 @@ static void session_mode(int alg, int tier)
     hx_sample("incremental %s: starting nonces with carry chains 0..16 x all packet histories of depth %d over {encrypt, decrypt, forged decrypt}", api_alg_name[alg], depth);
 }
 
+static const uint8_t *REFKEY = K;   /* the key the session object currently holds */
 static void refenc(int family, int alg, const uint8_t *n, const uint8_t *ad, size_t adl, const uint8_t *m, size_t ml, uint8_t *out)
 {
-    if (family <= 1) ref_aead_encrypt(alg, K, n, ad, adl, m, ml, out);
-    else if (family == 2) ref_siv_encrypt(alg, K, n, ad, adl, m, ml, out);
-    else ref_isap_encrypt(alg, K, n, ad, adl, m, ml, out);
+    if (family <= 1) ref_aead_encrypt(alg, REFKEY, n, ad, adl, m, ml, out);
+    else if (family == 2) ref_siv_encrypt(alg, REFKEY, n, ad, adl, m, ml, out);
+    else ref_isap_encrypt(alg, REFKEY, n, ad, adl, m, ml, out);
 }
 static void cpp_mode(int family, int alg, int tier)
 {
@@ -92,13 +93,19 @@ static void cpp_mode(int family, int alg, int tier)
         uint8_t n0[16]; chain_nonce(n0, chain, 0x41);
         int total = 1; for (int d = 0; d < depth; d++) total *= 3;
         for (int code = 0; code < total; code++) {
-            void *h = cpps_new(family, alg); uint8_t cur[16]; memcpy(cur, n0, 16);
+            void *h = cpps_new(family, alg); uint8_t cur[16]; memcpy(cur, n0, 16); REFKEY = K;
             if (!cpps_set_key(h, K, klen)) hx_fail(kb, "set_key(full length) returned false");
             cpps_set_nonce(h, n0, 16);
             int c = code;
             for (int p = 0; p < depth; p++, c /= 3) {
                 int kind = c % 3, adl = (p * 5 + 3) % 12, ml = (p * 7 + chain) % 23, r;
                 uint8_t exp[64], out[64];
+                /* re-keying inside a session leaves the nonce as it is (aead.h): before some operations the object gets another key, a zero-length key (= all-zero) or the first key again */
+                { static const uint8_t ZK[20]; static uint8_t K2[20]; if (!K2[0]) hx_fill(K2, 20, HX_P_DENSE, 77);
+                  int rk = (code + p * 2 + chain) % 5;
+                  if (rk == 1) { if (!cpps_set_key(h, K2, klen)) hx_fail(kb, "set_key(second key) returned false"); REFKEY = K2; }
+                  else if (rk == 2) { if (!cpps_set_key(h, K2, 0)) hx_fail(kb, "set_key(ptr, 0) returned false"); REFKEY = ZK; }
+                  else if (rk == 3) { if (!cpps_set_key(h, K, klen)) hx_fail(kb, "set_key(first key) returned false"); REFKEY = K; } }
                 refenc(family, alg, cur, ADB, adl, MSG, ml, exp);
                 hx_stat("transitions", 1);
                 if (kind == 0) {
@@ -119,7 +126,7 @@ static void cpp_mode(int family, int alg, int tier)
             /* probe: one more encryption must use `cur` */
             { uint8_t exp[64], out[64]; refenc(family, alg, cur, ADB, 2, MSG, 5, exp); int r = cpps_encrypt(h, out, MSG, 5, ADB, 2);
               if (r != 21 || memcmp(out, exp, 21)) hx_fail(kb, "nonce after history code %d (carry chain %d) is not the predicted one", code, chain); }
-            cpps_delete(h); hist++;
+            cpps_delete(h); hist++; REFKEY = K;
         }
     }
     /* set_nonce with every length 0..20 (left pad with zeros / truncate), NULL with 0; set_counter at byte boundaries */
